@@ -459,6 +459,7 @@ static int setup_lib(int id, int utf8) {
   pthread_join(th, NULL);
   if (!h.ok || !c->sc.cl) return -1;
   nonblock(sv[1]);
+  c->lc->width = c->lc->si.framebufferWidth; c->lc->height = c->lc->si.framebufferHeight;   /* as rfbInitConnection does */
   if (!c->lc->MallocFrameBuffer(c->lc)) return -1;
   if (!SetFormatAndEncodings(c->lc)) return -1;
   return 0;
